@@ -63,6 +63,11 @@ CHECKS = {
             "Random expression trees over i64-boundary operands, all operator pairs, every boundary-operand pair per operator, and every classified string of length<=4 (thorough 5) over the arithmetic alphabet are evaluated by both builds.",
             "where an intermediate leaves i64 only absence of a crash is demanded; $(EXPR) used only for parenthesis-free expressions",
             "DESIGN.md 3 C19"),
+    "C14": ("exploration",
+            "runtime monitoring: marker/condition/loop-variable observers produce an ordered execution trace; offline checker compares it with the trace of a reference interpreter run on the same AST with the same pre-programmed condition sequences; negatives must be diagnosed",
+            "Random ASTs (depth<=4, <=30 nodes) in both accepted spellings are executed by the real interpreter and every trace event (command, condition evaluation with its index, loop binding) is compared in order.",
+            "vp_cond's flock'ed cursor gives each evaluation the next pre-programmed status; exit status only compared when the last event is a plain command",
+            "DESIGN.md 3 C14"),
 }
 
 NOT_YET = "check not built yet (work in progress); runtime monitoring is applicable and planned, see DESIGN.md section 3"
